@@ -90,6 +90,32 @@ func VerifHarness_ForwardBytes() {
 	zz.Assert(sm.ActiveConnections() == 0, "the active-connection count did not return to zero after the forward ended")
 }
 
+// The backend sends its bytes and stops sending (it half-closes, or simply has nothing more to say)
+// while the client still has bytes on the way: every client byte still reaches the backend, whatever
+// the interleaving of the two copy directions.
+func VerifHarness_BackendQuietClientStillSending() {
+	zz.MaxPreempt(2)
+	zz.MaxLen(3)
+	zzFixedClock()
+	sm := NewStrategyManager()
+	route := config.Route{Host: []string{"*"}, Backend: []string{"backend.host:25566"}}
+	clientAddr := &net.TCPAddr{IP: net.IPv4(203, 0, 113, 7), Port: 50123}
+	later := zz.Bytes(2 + zz.Choose(2))
+	client := &zzFwdClient{conn: &zzPipeConn{remote: clientAddr, in: append([]byte{}, later...), slow: true}}
+	d := &zzDialer{fromBackend: zz.Bytes(zz.Choose(2))}
+	d.install()
+	hs := &packet.Handshake{ProtocolVersion: 767, ServerAddress: "play.example", Port: 25565, NextStatus: 2}
+	original := []byte{0, 1}
+	pc := &proto.PacketContext{Direction: proto.ServerBound, Protocol: 767, PacketID: 0, Packet: hs, Payload: append([]byte{}, original...)}
+	Forward(time.Second, []config.Route{route}, logr.Discard(), client, hs, pc, sm)
+	zz.WaitAll()
+	b := d.backends["backend.host:25566"]
+	frame := zzFrame(original)
+	zz.Assert(len(b.out) >= len(frame) && bytes.Equal(b.out[len(frame):], later), "client bytes sent after the backend went quiet did not reach the backend")
+	zz.Assert(bytes.Equal(client.conn.out, d.fromBackend), "backend bytes did not reach the client unchanged")
+	zz.Reach("half-close")
+}
+
 func replaceAllZZ(s, old, new string) string {
 	if old == "" {
 		return s
